@@ -279,12 +279,7 @@ func c12All(tier string) []Scenario {
 	// and, measured, cheaper than a preemption bound of 2, whose budget-indexed cache prunes less)
 	with(c12Scenarios(3, 2), func(s *Scenario) string { return "U" })
 	with(c12Scenarios(2, 3), func(s *Scenario) string { return "U" })
-	with(c12Scenarios(3, 3), func(s *Scenario) string {
-		if c12SmallFamilies[s.Family] {
-			return "P2M2"
-		}
-		return "P1M2"
-	})
+	with(c12Scenarios(3, 3), func(s *Scenario) string { return "D3M2" })
 	return sc
 }
 
@@ -311,7 +306,7 @@ func init() {
 				modes[s.Name] = s.Mode
 			}
 			return map[string]interface{}{"mode_per_scenario (U = all interleavings and map orders, pruned only by happens-before equivalence; PxMy = at most x preemptions and y non-sorted map orders; DxMy = at most x non-default scheduling choices of any kind and y non-sorted map orders)": modes,
-				"records": "2 (all interleavings), 4 (delay-bounded), 70 (delay-bounded); thorough also 3", "workers_and_NumCPU": map[string][]int{"quick": {1, 2}, "thorough": {1, 2, 3}}[tier], "scenarios": len(get(tier))}
+				"records": "2 (all interleavings), 4 (delay-bounded), 70 (delay-bounded); thorough also 3 (all interleavings with 2 workers, delay-bounded with 3)", "workers_and_NumCPU": map[string][]int{"quick": {1, 2}, "thorough": {1, 2, 3}}[tier], "scenarios": len(get(tier))}
 		},
 		Plan: func(tier string) ([]string, *engine.JobResult) {
 			depth := 1
